@@ -114,10 +114,22 @@ where
                         .map(|result| match result {
                             Ok((mut event, result)) => {
                                 event.ingest = ProcessorStatus::Completed(result);
+                                #[cfg(p2panda_p2panda_verif)]
+                                p2panda_core::verif::emit(format!(
+                                    "pipeline.ingest {} {:?}",
+                                    event.hash(),
+                                    event.ingest
+                                ));
                                 event
                             }
                             Err((mut event, err)) => {
                                 event.ingest = ProcessorStatus::Failed(err);
+                                #[cfg(p2panda_p2panda_verif)]
+                                p2panda_core::verif::emit(format!(
+                                    "pipeline.ingest {} {:?}",
+                                    event.hash(),
+                                    event.ingest
+                                ));
                                 event
                             }
                         })
@@ -125,10 +137,22 @@ where
                         .map(|result| match result {
                             Ok((mut event, result)) => {
                                 event.log_prune = ProcessorStatus::Completed(result);
+                                #[cfg(p2panda_p2panda_verif)]
+                                p2panda_core::verif::emit(format!(
+                                    "pipeline.log_prune {} {:?}",
+                                    event.hash(),
+                                    event.log_prune
+                                ));
                                 event
                             }
                             Err((mut event, err)) => {
                                 event.log_prune = ProcessorStatus::Failed(err);
+                                #[cfg(p2panda_p2panda_verif)]
+                                p2panda_core::verif::emit(format!(
+                                    "pipeline.log_prune {} {:?}",
+                                    event.hash(),
+                                    event.log_prune
+                                ));
                                 event
                             }
                         });
